@@ -40,11 +40,11 @@ P = {
          'Decides volume-scaled formulas, that each elapsed dt is paired with exactly one volume step on every path, division leaves the loop and truncates consistently. Distributional statement NOT decided.',
          'formula comparison + path-sensitive pairing rule'),
  'C12': ('DESIGN.md 3/C12', 'writer/reader annotation key agreement, exhaustiveness of type tables, field forwarding',
-         'Decides agreement between the SBML annotation writer and reader tables and that nothing is dropped between model and writer. Round trip through libsbml NOT decided.',
-         'string-template extraction + table agreement'),
+         'Decides agreement between the SBML annotation writer and reader (the reader code partially evaluated on the strings the writer code builds for sample reactions gives the sample back) and that nothing is dropped between model and writer. Round trip through libsbml NOT decided.',
+         'string-template extraction + partial evaluation of reader after writer + table agreement'),
  'C13': ('DESIGN.md 3/C13', 'loop-carried state, rule translation, stoichiometry expansion, local-parameter renaming order',
-         'Decides that no decision variable leaks between SBML elements, rule/rate-rule translation shape, stoichiometry expansion loops and rename-before-formula ordering.',
-         'reaching definitions with loop-carried detection + ordering rules'),
+         'Decides that no decision variable leaks between SBML elements, rule/rate-rule translation shape, stoichiometry expansion loops, rename-before-formula ordering, and (importer partially evaluated on three sample documents) that an un-annotated reaction gets its kinetic law as rate.',
+         'reaching definitions with loop-carried detection + ordering rules + partial evaluation on sample documents'),
  'C14': ('DESIGN.md 3/C14', 'kinetic-law templates: identifier closure and value vs closed forms',
          'Decides completely the template clause: each exported kinetic-law template has only defined identifiers and equals the model rate law (sympy, with witness).',
          'string-template extraction + algebraic comparison'),
